@@ -563,7 +563,7 @@ V("C19", "verdict-ge21-silent", "silent", (FT, "    elif hard_to_maintain > 20:"
 
 # ------------------------------------------------------------------ C17
 SRC = "codelimit/common/source_utils.py"
-V("C17", "marker-contains", "fire", (SRC, "            return value.startswith(\"nocl\")", "            return \"nocl\" in value"), "a comment that mentions nocl later suppresses", "final-test")
+V("C17", "marker-contains", "fire", (SRC, "            return value.startswith(\"nocl\")", "            return \"nocl\" in value"), "a comment that mentions nocl later suppresses", "not-a-prefix-test")
 V("C17", "marker-before-lower", "fire", (SRC, "            value = token.value.lower()\n", "            value = token.value\n"), "NOCL no longer suppresses", "case")
 V("C17", "leader-slice-1-for-slashes", "fire", (SRC, "                value = value[2:].strip()", "                value = value[1:].strip()"), "'// nocl' leaves '/ nocl'", "leader-length")
 V("C17", "no-strip", "fire", (SRC, "                value = value[1:].strip()", "                value = value[1:]"), "'# nocl' has a leading blank", "strip")
